@@ -122,9 +122,20 @@ def _w_c17(case):
         d = {"why": why}
         d.update({k: (str(v)[:600]) for k, v in kw.items()})
         return {"status": "violation", "tag": tag, "detail": d}
+    nper = len(case["ctrl"]["keys"])
+
+    def interleave(f):
+        """rows grouped by control row, the records ascending in even groups and descending in odd ones (the relative
+        order of the records differs from block to block), index kept"""
+        if f.shape[0] != nper * len(case["recs"]):
+            return f.iloc[::-1]
+        idx = sorted(range(f.shape[0]), key=lambda q: (q % nper, (q // nper) if (q % nper) % 2 == 0 else -(q // nper)))
+        return f.iloc[idx]
     variants = {"pandas": lambda f: f, "polars": lambda f: polars.DataFrame(f),
                 "pandas/permuted": lambda f: f.iloc[::-1, ::-1].reset_index(drop=True),
-                "polars/permuted": lambda f: polars.DataFrame(f.iloc[::-1, ::-1].reset_index(drop=True))}
+                "polars/permuted": lambda f: polars.DataFrame(f.iloc[::-1, ::-1].reset_index(drop=True)),
+                "pandas/interleaved": interleave,
+                "polars/interleaved": lambda f: polars.DataFrame(interleave(f).reset_index(drop=True))}
     for vn, mk in variants.items():
         try:
             got_b = m_out.transform(mk(rows))
@@ -293,6 +304,10 @@ def records_c11(vd, stats, tier):
             for form, a, b in (("RecordSpecification", base, other),
                                ("RecordMap(blocks_in)", RecordMap(blocks_in=base), RecordMap(blocks_in=other)),
                                ("RecordMap(blocks_out)", RecordMap(blocks_out=base), RecordMap(blocks_out=other)),
+                               ("RecordMap(blocks_in, blocks_out differ)", RecordMap(blocks_in=base, blocks_out=base),
+                                RecordMap(blocks_in=base, blocks_out=other)),
+                               ("RecordMap(blocks_in differ, blocks_out)", RecordMap(blocks_in=base, blocks_out=base),
+                                RecordMap(blocks_in=other, blocks_out=base)),
                                ("convert_records pipeline",
                                 TableDescription(table_name="d", column_names=list(RecordMap(blocks_in=base).columns_needed)).convert_records(RecordMap(blocks_in=base)),
                                 TableDescription(table_name="d", column_names=list(RecordMap(blocks_in=other).columns_needed)).convert_records(RecordMap(blocks_in=other)))):
